@@ -22,5 +22,6 @@ func main() {
 	run.Require("routed_and_invoked", 500)
 	run.Require("unrouted", 500)
 	run.Require("handler_snapshot_probes", 10)
+	run.Require("outside_prefix_requests", 100)
 	run.Finish()
 }
